@@ -48,6 +48,30 @@ Theorem C05_more_update_spec : forall um moreu,
 Proof. exact more_update_spec. Qed.
 Print Assumptions C05_more_update_spec.
 
+(* ... and every one of those paths is validated (fix 3a4e7e7): one path of the update mask or of the extra
+   update paths that is not a valid path of the type, or lies outside every writable path, and the write
+   is rejected with InvalidArgument whatever the other paths are *)
+Theorem C05_more_update_all_validated : forall sch ty ps extra wm rm p,
+  In p (ps ++ extra)%list ->
+  (~ good_path sch ty p \/ (exists ws, wm = Some ws /\ forall w, In w ws -> is_prefix w p = false)) ->
+  validate_update sch ty (effective_update (Some ps) (Some extra)) wm rm = code_invalid_argument.
+Proof. exact more_update_all_validated. Qed.
+Print Assumptions C05_more_update_all_validated.
+
+(* defect (fixed, 3a4e7e7): WithMoreUpdateMask merged with fieldmaskpb.Union, which normalizes: the unknown
+   path ambient_humidity.value (ambient_humidity is a scalar) next to the extra path ambient_humidity
+   disappeared before Validate and the write was accepted (and cleared ambient_humidity) *)
+Theorem C05_more_update_v0_refuted :
+  let ty := "smartcore.traits.AirTemperature" in
+  let um := Some [["ambient_humidity"; "value"]] in let moreu := Some [["ambient_humidity"]] in
+  let stored := VM [("ambient_humidity", VS (SF32 1075838976))] in
+  conforms the_schema ty stored = true /\
+  fm_valid the_schema ty (mask_paths um) = false /\
+  effective_update_v0 um moreu = moreu /\
+  write the_schema ty false None None (effective_update_v0 um moreu) None stored (VM []) = WOk (VM []) /\
+  write the_schema ty false None None (effective_update um moreu) None stored (VM []) = WErr code_invalid_argument.
+Proof. vm_compute. repeat split; reflexivity. Qed.
+
 (* an empty non-nil update mask changes nothing *)
 Theorem C05_empty_mask_noop : forall sch ty wm rm dst src,
   schema_names_ok sch = true -> valid_or sch ty wm = true -> conforms sch ty src = true ->
